@@ -64,6 +64,11 @@ def target(data):
             flush()
         else:
             state["buckets"][key]["count"] += 1
+            if state["buckets"][key]["count"] >= 300:
+                # a pervasive failure: nothing more to learn, and a panicking/raising target slows libFuzzer to a crawl
+                state["stopped_early"] = key
+                flush()
+                os._exit(0)
     except BaseException as e:  # harness problem: record distinctly
         key = "HARNESS:" + type(e).__name__ + ":" + traceback.format_exc()[-300:]
         state["buckets"].setdefault(key, {"s": s, "opts": opts, "msg": key, "count": 0})["count"] += 1
